@@ -1,4 +1,92 @@
-/- C02: line-protocol commands of the emit model (filled in by Emit/Model.lean) -/
+/- C02: line protocol of the emit model (same lines as harness/C02/emit_wrap.c, output must be identical):
+     sss <op> <nlive> <wr> <s1> <s2> <s3> | ss .. <s1> <s2> | s .. <s1> | ssi .. <s1> <s2> <imm> | ssu .. | si .. <s1> <imm> | su ..
+     copy <nlive> <dest> <src>          slots: L<i>  U<env>.<i>  K<int>|Kn|Kt|Kf  R<id>
+   -> w <hex words> | max <n> temps <n> alloc <ranges> | consts <n> -/
+import JanetModel.Emit.Model
 namespace JanetModel.Emit
-def emitCmd (_ : List String) : String := "emit-model-not-built"
+
+def hexd (n : Nat) : Char := if n < 10 then Char.ofNat (48 + n) else Char.ofNat (87 + n)
+
+def toHex (n : Nat) : String :=
+  if n == 0 then "0" else
+  let rec go : Nat → Nat → List Char → List Char
+    | 0, _, acc => acc
+    | fuel + 1, n, acc => if n == 0 then acc else go fuel (n / 16) (hexd (n % 16) :: acc)
+  String.ofList (go 16 n [])
+
+def parseSlot (t : String) : Option Slot :=
+  let body := (t.drop 1).toString
+  match t.front with
+  | 'L' => body.toNat?.map Slot.loc
+  | 'U' => match body.splitOn "." with
+    | [e, i] => do let e ← e.toNat?; let i ← i.toNat?; pure (Slot.up e i)
+    | _ => none
+  | 'K' => match body with
+    | "n" => some (.const .nil)
+    | "t" => some (.const .tru)
+    | "f" => some (.const .fls)
+    | b => b.toInt?.map (fun n => Slot.const (.int n))
+  | 'R' => body.toNat?.map (fun n => Slot.ref (n % 64))
+  | _ => none
+
+def initC (nlive : Nat) (slots : List Slot) : C :=
+  -- closed form of `nlive` successive `janetc_regalloc_1` calls on a fresh allocator (0..239, then 256..)
+  let ra1 : RA := { alloc := fun r => if nlive ≤ 240 then decide (r < nlive) else (decide (r < 240) || (decide (256 ≤ r) && decide (r < nlive + 16))),
+                    max := if nlive = 0 then 0 else if nlive ≤ 240 then nlive - 1 else nlive + 15 }
+  let ra2 := slots.foldl (fun (ra : RA) s => match s with | .loc i => ra.mark i | _ => ra) ra1
+  { ra := ra2 }
+
+def ranges (ra : RA) (bound : Nat) : String :=
+  let on (r : Nat) : Bool := ra.alloc r && !(240 ≤ r && r ≤ 255)
+  let (acc, cur) := (List.range (bound + 1)).foldl (fun (st : List String × Option (Nat × Nat)) r =>
+    match st.2, on r with
+    | none, true => (st.1, some (r, r))
+    | none, false => st
+    | some (a, _), true => (st.1, some (a, r))
+    | some (a, b), false => (st.1 ++ [s!"{a}-{b}"], none)) ([], none)
+  let acc := match cur with | some (a, b) => acc ++ [s!"{a}-{b}"] | none => acc
+  String.intercalate " " acc
+
+def report (c : C) (bound : Nat) : String :=
+  let ws := String.intercalate " " (c.buf.map (fun i => toHex (i.word % 4294967296)))
+  let temps := (List.range 8).foldl (fun acc t => if c.ra.temps t then acc + 2 ^ t else acc) 0
+  "w" ++ (if ws.isEmpty then "" else " " ++ ws) ++ s!" | max {c.ra.max} temps {temps} alloc " ++ ranges c.ra bound ++ s!" | consts {c.consts.length}"
+
+def boundOf (nlive : Nat) (slots : List Slot) : Nat :=
+  slots.foldl (fun b s => match s with | .loc i => max b i | _ => b) nlive + 96
+
+def imm8 (s : String) : Option Nat := s.toInt?.map (fun n => imod n 256)
+def imm16 (s : String) : Option Nat := s.toInt?.map (fun n => imod n 65536)
+
+def emitCmd (toks : List String) : String :=
+  let bad := "bad-op"
+  match toks with
+  | ["copy", nl, d, s] =>
+    match nl.toNat?, parseSlot d, parseSlot s with
+    | some nl, some d, some s => report (W.copy (initC nl [d, s]) d s) (boundOf nl [d, s])
+    | _, _, _ => bad
+  | kind :: op :: nl :: wr :: rest =>
+    match op.toNat?, nl.toNat?, rest.mapM (fun t => parseSlot t) with
+    | some op, some nl, _ =>
+      let wr := wr == "1"
+      match kind, rest with
+      | "s", [a] => match parseSlot a with
+        | some a => report (W.emitS (initC nl [a]) op wr a) (boundOf nl [a])
+        | none => bad
+      | "si", [a, i] | "su", [a, i] => match parseSlot a, imm16 i with
+        | some a, some i => report (W.emitSI (initC nl [a]) op wr a i) (boundOf nl [a])
+        | _, _ => bad
+      | "ss", [a, b] => match parseSlot a, parseSlot b with
+        | some a, some b => report (W.emitSS (initC nl [a, b]) op wr a b) (boundOf nl [a, b])
+        | _, _ => bad
+      | "ssi", [a, b, i] | "ssu", [a, b, i] => match parseSlot a, parseSlot b, imm8 i with
+        | some a, some b, some i => report (W.emitSSI (initC nl [a, b]) op wr a b i) (boundOf nl [a, b])
+        | _, _, _ => bad
+      | "sss", [a, b, c] => match parseSlot a, parseSlot b, parseSlot c with
+        | some a, some b, some c => report (W.emitSSS (initC nl [a, b, c]) op wr a b c) (boundOf nl [a, b, c])
+        | _, _, _ => bad
+      | _, _ => bad
+    | _, _, _ => bad
+  | _ => bad
+
 end JanetModel.Emit
